@@ -667,6 +667,14 @@ def judgeC14 (ops : List OpRec) : List String :=
     -- specification broker computed may never have arrived
     let capped := op.notes.any fun (n : List String) => n.head? == some "request-cap"
     let wire := !capped && op.evs.any fun e => match e with | .io _ _ => true | .connect _ ok => !ok | _ => false
+    -- ... but however a call is disturbed, it makes at most max 1 N attempts, and an attempt puts at most one request of the
+    -- operation's own kind on the wire (`C14_attempts_any_step`: the bound holds for every attempt function)
+    let s := if api != 0 && wire && !capped then
+        let sent := (bodies.filter fun (x : Bytes × Request × RespBody) => x.2.1.header.apiKey = api).length
+        if sent > max 1 s.retryMax then
+          viol s "C14-more-requests-than-attempts" op s!"{sent} requests of the operation reached the coordinator in one call disturbed on the wire, limit {s.retryMax}"
+        else s
+      else s
     let s := if api = 0 || wire then s else
       let watchdog := capped
       let s := if watchdog then viol s (if api = 8 then "C14-commit-never-returns" else "C14-never-returns") op
